@@ -832,6 +832,21 @@ fn judge(run: &E1Run, out: &RunOutput, isos: &[Vec<Arc<Iso>>], pool: &PoolMap, r
     v
 }
 
+/// Does this interposer trace line describe a lasting or outward effect on the process (as opposed to
+/// merely reading a clock, randomness, an environment variable or a file)?
+pub fn is_process_effect(line: &str) -> bool {
+    if ["socket ", "connect ", "unlink ", "rename ", "mkdir ", "fork", "execve ", "setenv ", "unsetenv ", "putenv ", "chdir ", "sigaction "].iter().any(|p| line.starts_with(p)) {
+        return true;
+    }
+    if line.starts_with("open ") || line.starts_with("openat ") {
+        // opened for writing / creating / truncating / appending?
+        if let Some(flags) = line.rsplit("flags=").next().and_then(|f| f.trim().parse::<i64>().ok()) {
+            return flags & (libc::O_WRONLY | libc::O_RDWR | libc::O_CREAT | libc::O_TRUNC | libc::O_APPEND) as i64 != 0;
+        }
+    }
+    false
+}
+
 /// Ask the interposer (if loaded) to log intercepted calls of this process to `fd`.
 fn trace_to(fd: i32) -> bool {
     let name = std::ffi::CString::new("simio_trace_to").unwrap();
@@ -870,6 +885,7 @@ fn child_body(run: &E1Run, isos: &[Vec<Arc<Iso>>], raw_fd: i32) -> RunReport {
     let raw = String::from_utf8_lossy(&oracle::read_fd_all(raw_fd)).into_owned();
     let mut rep = RunReport::default();
     let mut effects: Vec<String> = Vec::new();
+    let threads_created = 0usize;
     if tracing {
         trace_to(-1);
         let trace = String::from_utf8_lossy(&oracle::read_fd_all(trace_fd)).into_owned();
@@ -878,7 +894,7 @@ fn child_body(run: &E1Run, isos: &[Vec<Arc<Iso>>], raw_fd: i32) -> RunReport {
                 if !name.starts_with("RUST_") && !rep.env_reads.iter().any(|n| n == name) && rep.env_reads.len() < 8 {
                     rep.env_reads.push(name.to_string());
                 }
-            } else if ["open ", "openat ", "socket ", "connect ", "unlink ", "rename ", "mkdir ", "fork", "execve "].iter().any(|p| line.starts_with(p)) {
+            } else if is_process_effect(line) {
                 // reading /proc is what the supervisor itself does when a thread looks blocked
                 if !line.contains("/proc/self/task/") {
                     effects.push(line.to_string());
@@ -936,14 +952,29 @@ fn child_body(run: &E1Run, isos: &[Vec<Arc<Iso>>], raw_fd: i32) -> RunReport {
     cells.dedup();
     rep.cells = cells;
     rep.violations = judge(run, &out, isos, &pool, &raw);
+    // a thread that is created and joined inside a call is invisible; one that is still alive after all
+    // callers have returned and been joined is a lasting effect
+    let _ = threads_created;
+    // (a joined thread can linger in /proc for a moment after pthread_join returns: look again before concluding)
+    let count = || std::fs::read_dir("/proc/self/task").map(|d| d.count()).unwrap_or(1);
+    let mut alive = count();
+    let mut waited = 0;
+    while alive > 1 && waited < 40 {
+        std::thread::sleep(Duration::from_millis(10));
+        waited += 1;
+        alive = count();
+    }
+    if alive > 1 {
+        effects.push(format!("{} thread(s) created by the code under test are still alive after every call returned", alive - 1));
+    }
     if let Some(e) = effects.first() {
         rep.violations.push(Violation {
             property: "C17".into(),
-            class: "evaluation-touches-files-sockets-or-processes".into(),
+            class: "evaluation-has-a-side-effect-on-the-process".into(),
             thread: 0,
             op_idx: 0,
             op: None,
-            expected: "no file, socket or process system call while the calls run".into(),
+            expected: "no file, socket, process, thread, environment, directory or signal-handler call while the calls run".into(),
             got: e.clone(),
             needs: "history-or-schedule".into(),
         });
